@@ -1209,6 +1209,11 @@ func (e *Enc) encodeConvert(st *bstate, x *ssa.Convert) {
 		arr := e.fresh("bytesof", "(Array Int Int)")
 		e.assert(fmt.Sprintf("(forall ((i Int)) (! (=> (and (<= 0 i) (< i (slen %s))) (= (select %s i) (sat %s i))) :pattern ((select %s i))))", v.T, arr, v.T, arr))
 		e.assert(sEq(n, app("store", old, r, arr)))
+		if b, ok := el.Underlying().(*types.Basic); ok && b.Kind() == types.Uint8 {
+			// the string made of the bytes of s is s
+			e.W.declareStrOfArr()
+			e.assert(sEq(app("strofarr", arr, "0", app("slen", v.T)), v.T))
+		}
 		e.setVal(x, Val{T: app("mk-slice", r, "0", app("slen", v.T), app("slen", v.T))})
 		if b, ok := el.Underlying().(*types.Basic); !ok || b.Kind() != types.Uint8 {
 			e.note("[]rune(string) conversion approximated")
